@@ -76,7 +76,15 @@ class C19(Prop):
                   "that id, for every id incl. multi-byte varints); an incoming bidi stream's header is decoded by the frame layer "
                   "to exactly the session id the peer wrote, consuming exactly the header; for every chunking the bytes obtainable "
                   "after the header are exactly the bytes that follow it (corollary of the C02 invariant / C04 type resolution); "
-                  "uni streams are surfaced iff the extension is enabled; reading through AsyncRead::poll_read (futures and tokio) "
+                  "the gate proved over the running model: with the extension disabled no accept_uni ever surfaces a stream and "
+                  "nothing is ever pushed on wt_uni_streams, whatever arrives in whatever interleaving (runAccepts false), and a "
+                  "surfaced stream has resolved to the WebTransport uni type; LIVENESS of the bidi header: for every cutting of "
+                  "header ++ payload (any encoding of the two varints, Pending anywhere, nothing behind FIN / RESET) re-polling "
+                  "poll_next ends with the WebTransport frame of that session - never Pending with the script used up, never an "
+                  "error - and then buffer ++ future = payload (C19_bidi_header_is_answered / _then_payload); the uni theorems "
+                  "hold for every header the RFC parser reads as type 0x54 + session id (non-minimal varints); the 0x41 signal is "
+                  "answered only for the very first bytes unless frames of unknown type precede it (D-19b: partial theorem + "
+                  "decide witness of the negation); reading through AsyncRead::poll_read (futures and tokio) "
                   "with EVERY sequence of positive caller buffer sizes hands out exactly those bytes, each once and in order, every "
                   "call at least one byte and at most its buffer, Ok(0) only behind the last byte (induction over the size list, "
                   "over the BufList::take_chunk(limit) model); for every session id, acceptance pattern of the transport and sequence "
@@ -93,8 +101,13 @@ class C19(Prop):
                   "send_data/poll_ready under write credit granted a few bytes at a time, poll_finish/poll_close/poll_shutdown, "
                   "reset/stop_sending, DatagramSender/DatagramReader); the per-call byte counts are compared with the model, the spec "
                   "half of the driver has no opinion on them")
-    rule = ("CONNECT on stream ids 0,4,8,…,256,16384,65536,2^30 (all varint forms), session accepted first or after "
-            "other requests, payloads cut at every offset around the header/payload boundary (header and payload in one chunk, "
+    rule = ("CONNECT on stream ids 0,4,8,…,256,16384,65536,2^30,2^32,2^40+4,2^62-4 (all varint forms), session accepted first "
+            "or after other requests (GET on 0 + CONNECT on 4 included), explicit session ids 0…2^62-4 (incl. 2^32, 2^40+4, 2^62-4) "
+            "on streams the server opens, the server's own ec / dg settings on or off, open_bi / open_uni waiting for stream "
+            "credit (uc= / bc= + gu / gb), the RETURN direction of server-opened bidi streams (bytes that look like headers "
+            "or frames included), frames of unknown type in front of the 0x41 signal (complete / cut off), bidi streams opened "
+            "before conn.WT, a request arriving through accept_bi, 0x41 / 0x54 in every varint form up to 8 bytes, up to 12 uni "
+            "streams buffered together, payloads cut at every offset around the header/payload boundary (header and payload in one chunk, "
             "cuts inside either varint), extension enabled or not, uni and bidi, both directions, non-minimal varints in peer "
             "headers; reads: poll_data, futures poll_read, tokio poll_read, mixed on one stream, before/after split, buffer sizes 1 "
             "… larger than any chunk (cycling lists), data/FIN/RESET arriving before the accept, before the read or while it waits; "
@@ -115,7 +128,14 @@ class C19(Prop):
                    "a stream that ends inside its WebTransport header: uni = never surfaced; bidi = accept_bi answers an error or None, "
                    "never a stream; after an accept answered a connection error every later accept answers an error; whether and with "
                    "which code the connection is then closed is C04's / C06's subject (the closed=[..] token may be absent)",
-                   "requests and non-WebTransport frames that come in through accept_bi are C03's subject (not generated here)",
+                   "a request that comes in through accept_bi (AcceptedBi::Request) must be answered as a request on that stream or "
+                   "with an error, never as a WebTransport stream; what the request API does with it is C03's subject",
+                   "an accept may be left waiting at the end of a line only if the RFC 9000 / RFC 9114 parsers (no model code) find no "
+                   "complete 0x41 / 0x54 header on a stream it could surface: the judge refuses conn.ab=pending / conn.au=pending "
+                   "otherwise, also when model and implementation agree on the stall",
+                   "R-19a / D-19b: the 0x41 signal behind frames of unknown type must be refused (draft-ietf-webtrans-http3 4.2: only "
+                   "the very first bytes; H3_FRAME_ERROR); h3 surfaces the stream: known finding, verdict KNOWN:D-19b only when the "
+                   "session id and the payload are those behind that 0x41 and nothing else on the line departs",
                    "transport chunks are non-empty and FIN / RESET are sticky (SimQuic; R-T)",
                    "a datagram error surfaces as a connection close at the next accept_bi / accept_uni of the session"]
 
